@@ -36,6 +36,7 @@ EXTENDS Integers, Sequences
 S  == INSTANCE SM2
 BN == INSTANCE BigNat
 By == INSTANCE Bytes
+LOCAL INSTANCE SequencesExt
 
 VARIABLES party, net, adv, reply
 kxvars == <<party, net, adv, reply>>
@@ -78,12 +79,22 @@ WhyNoV(m) == IF ValidDelivery(m) THEN "vinf" ELSE "badpoint"
 Shared(d, r, Rself, Ppeer, m) == IF m.wire = "ok" THEN S!KxShared(d, r, Rself, Ppeer, m.R) ELSE S!NoV
 
 (* ------------------------------------------------------- honest actions *)
+(* ZA = SM3(ENTL || ID || a || b || xG || yG || xA || yA) exactly as S!ZA, but folded block by block with   *)
+(* every chaining value forced to a concrete tuple: evaluating SM3!Absorb on the ~130 blocks of an 8191-byte *)
+(* identity nests all compression calls inside one another in TLC (lazy arguments) and can exhaust the Java   *)
+(* stack.  MC_C08kat asserts ZAof = S!ZA and the published ZA.                                                *)
+HashBlocks(m) ==
+  LET p == S!H!Pad(m)
+      n == Len(p) \div 64
+  IN S!H!StateBytes(FoldLeft(LAMBDA v, i : SubSeq(S!H!CF(v, SubSeq(p, (64 * (i - 1)) + 1, 64 * i)), 1, 8),
+                             S!H!IV, [i \in 1..n |-> i]))
+ZAof(uid, Q) == HashBlocks(By!I2OSP(8 * Len(uid), 2) \o uid \o F32(S!A) \o F32(S!B) \o F32(S!Gx) \o F32(S!Gy) \o F32(Q[1]) \o F32(Q[2]))
 (* both parties after NewKeyExchange: own and peer public key, own and peer Z value *)
 NewParties(cfg) ==
   LET pa == S!PublicKey(cfg.dA)
       pb == S!PublicKey(cfg.dB)
-      za == S!ZA(EffUid(cfg.uidA), pa)
-      zb == S!ZA(EffUid(cfg.uidB), pb)
+      za == ZAof(EffUid(cfg.uidA), pa)
+      zb == ZAof(EffUid(cfg.uidB), pb)
   IN [A |-> [Blank(cfg.dA, cfg.uidA, cfg.confA, cfg.klen) EXCEPT !.phase = "new", !.pub = pa, !.peerPub = pb, !.z = za, !.peerZ = zb],
       B |-> [Blank(cfg.dB, cfg.uidB, cfg.confB, cfg.klen) EXCEPT !.phase = "new", !.pub = pb, !.peerPub = pa, !.z = zb, !.peerZ = za]]
 CfgOf == [dA |-> party.A.d, dB |-> party.B.d, uidA |-> party.A.uid, uidB |-> party.B.uid,
